@@ -289,11 +289,13 @@ impl<'a, W: fmt::Write> JsFunctionScopeWriter<'a, W> {
         #[cfg(glass_easel_verif)]
         verif::trace("c", content);
         let block = self.get_block_mut();
-        if block.need_stat_sep {
-            block.need_stat_sep = false;
+        let need_stat_sep = block.need_stat_sep;
+        block.need_stat_sep = true;
+        if need_stat_sep {
             write!(&mut self.w, ";")?;
         }
-        write!(&mut self.w, "{}", content)?;
+        // the content is a complete program of its own: it may lack its last `;` or end in a line comment
+        write!(&mut self.w, "{}\n", content)?;
         Ok(())
     }
 
